@@ -90,6 +90,69 @@ Ltac nsimpl_in H :=
        fl_set_exact fl_set_relaxed fl_set_marked fl_set_cutset fl_set_deleted fl_set_cache fl_set_above
        fl_new_exact fl_new_relaxed e_from e_to e_dec e_cost] in H.
 
+(* ------------------------------------------------------------------ 2. replay_sat *)
+Section ReplaySat.
+  Context {St : Type}.
+  Variable pb : problem St.
+
+  (* what the code computes: the accumulation saturates at the isize bounds *)
+  Fixpoint replay_sat (ds : list decision) (s : St) (v : Z) : option (St * Z) :=
+    match ds with
+    | [] => Some (s, v)
+    | d :: ds' =>
+        if in_domain pb s d then
+          let s' := transition pb s d in
+          replay_sat ds' s' (sat_add v (transition_cost pb s s' d))
+        else None
+    end.
+
+  (* "clampZ never fired": every exact partial sum along the path is an isize *)
+  Fixpoint no_overflow (ds : list decision) (s : St) (v : Z) : Prop :=
+    match ds with
+    | [] => True
+    | d :: ds' =>
+        let s' := transition pb s d in
+        let v' := (v + transition_cost pb s s' d)%Z in
+        in_isize v' /\ no_overflow ds' s' v'
+    end.
+
+  Lemma replay_sat_eq_replay ds : forall s v,
+    no_overflow ds s v -> replay_sat ds s v = replay pb ds s v.
+  Proof.
+    induction ds as [|d ds IH]; intros s v Hno; simpl; auto.
+    destruct Hno as [Hin Hno].
+    destruct (in_domain pb s d); auto.
+    unfold step. unfold sat_add. rewrite clampZ_id by exact Hin. apply IH; exact Hno.
+  Qed.
+
+  Lemma replay_sat_app ds1 : forall ds2 s v,
+    replay_sat (ds1 ++ ds2) s v =
+    match replay_sat ds1 s v with Some (s', v') => replay_sat ds2 s' v' | None => None end.
+  Proof.
+    induction ds1 as [|d ds1 IH]; intros ds2 s v; simpl; auto.
+    destruct (in_domain pb s d); auto.
+  Qed.
+
+  (* what a successful replay_sat means, decision by decision: each decision is in the domain of its
+     variable at the state reached by the preceding ones, states follow [transition], values follow
+     the saturated sum of [transition_cost] *)
+  Lemma replay_sat_snoc ds d s v s1 v1 :
+    replay_sat ds s v = Some (s1, v1) ->
+    replay_sat (ds ++ [d]) s v =
+      if in_domain pb s1 d then
+        Some (transition pb s1 d, sat_add v1 (transition_cost pb s1 (transition pb s1 d) d))
+      else None.
+  Proof. intros H. rewrite replay_sat_app, H. reflexivity. Qed.
+
+  Lemma replay_sat_prefix ds1 ds2 s v r :
+    replay_sat (ds1 ++ ds2) s v = Some r -> exists r1, replay_sat ds1 s v = Some r1.
+  Proof.
+    rewrite replay_sat_app. destruct (replay_sat ds1 s v) as [[s1 v1]|]; [|discriminate].
+    intros _. eexists; reflexivity.
+  Qed.
+
+End ReplaySat.
+
 Section Exact.
   Context {St : Type}.
   Variable st_eqb : St -> St -> bool.
@@ -264,45 +327,7 @@ Section Exact.
     m_edges m' = m_edges m ++ [e] -> get_edge m' (length (m_edges m)) = e.
   Proof. intros H. unfold get_edge. rewrite H. apply nth_snoc_new. Qed.
 
-  (* ================================================================== 2. replay_sat, chain, clean_chain *)
-  (* what the code computes: the accumulation saturates at the isize bounds *)
-  Fixpoint replay_sat (ds : list decision) (s : St) (v : Z) : option (St * Z) :=
-    match ds with
-    | [] => Some (s, v)
-    | d :: ds' =>
-        if in_domain pb s d then
-          let s' := transition pb s d in
-          replay_sat ds' s' (sat_add v (transition_cost pb s s' d))
-        else None
-    end.
-
-  (* "clampZ never fired": every exact partial sum along the path is an isize *)
-  Fixpoint no_overflow (ds : list decision) (s : St) (v : Z) : Prop :=
-    match ds with
-    | [] => True
-    | d :: ds' =>
-        let s' := transition pb s d in
-        let v' := (v + transition_cost pb s s' d)%Z in
-        in_isize v' /\ no_overflow ds' s' v'
-    end.
-
-  Lemma replay_sat_eq_replay ds : forall s v,
-    no_overflow ds s v -> replay_sat ds s v = replay pb ds s v.
-  Proof.
-    induction ds as [|d ds IH]; intros s v Hno; simpl; auto.
-    destruct Hno as [Hin Hno].
-    destruct (in_domain pb s d); auto.
-    unfold step. unfold sat_add. rewrite clampZ_id by exact Hin. apply IH; exact Hno.
-  Qed.
-
-  Lemma replay_sat_app ds1 : forall ds2 s v,
-    replay_sat (ds1 ++ ds2) s v =
-    match replay_sat ds1 s v with Some (s', v') => replay_sat ds2 s' v' | None => None end.
-  Proof.
-    induction ds1 as [|d ds1 IH]; intros ds2 s v; simpl; auto.
-    destruct (in_domain pb s d); auto.
-  Qed.
-
+  (* ================================================================== 2b. chain, clean_chain *)
   Definition chain (m : mdd) (id : nat) : list decision :=
     walk_up inp (S (length (m_nodes m))) m (n_best (gn m id)).
 
@@ -1579,13 +1604,6 @@ Section Exact.
       + exists (S d). exact E4.
   Qed.
 
-  Lemma compile_loop_inv c ds polls m :
-    fst (layer_loop st_eqb inp (S (S (nb_vars pb))) (initialize inp c ds polls)) = m -> Sinv m /\ Xs m.
-  Proof.
-    intros <-. destruct (initialize_inv c ds polls) as (I1 & I2 & I3).
-    apply layer_loop_inv; auto. exists (sp_depth root). exact I3.
-  Qed.
-
   (* ================================================================== 7. the theorems, on any diagram satisfying Sinv *)
   Lemma fl_is_exact_not_relaxed fl : fl_is_exact fl = true -> f_relaxed fl = false.
   Proof. unfold fl_is_exact. intros H. apply andb_true_iff in H. destruct H as [_ H]. destruct (f_relaxed fl); auto. Qed.
@@ -1625,7 +1643,7 @@ Section Exact.
   (* T3 *)
   Lemma Sinv_clean_chain_walk (m : mdd) :
     Sinv m -> forall id, clean_chain m id -> forall fuel, id < fuel -> id < length (m_nodes m) ->
-    replay_sat (rev (walk_up inp fuel m (n_best (gn m id)))) (sp_state root) (sp_value root)
+    replay_sat pb (rev (walk_up inp fuel m (n_best (gn m id)))) (sp_state root) (sp_value root)
       = Some (n_state (gn m id), n_vtop (gn m id)) /\
     n_depth (gn m id) = sp_depth root + length (walk_up inp fuel m (n_best (gn m id))).
   Proof.
@@ -1958,7 +1976,7 @@ Section Exact.
       destruct P06 as (_ & _ & L & _). rewrite L. apply (S_next _ HS). exact Hid.
     - intros b Hb. rewrite Bb6 in Hb. rewrite L26. apply B3; exact Hb.
     - intros b Hb. rewrite Be6 in Hb. destruct (BE3 b Hb) as [G1 G2]. rewrite L26.
-      split; [exact G1|]. eapply clean_chain_peq; eauto.
+      split; [exact G1|]. eapply clean_chain_peq; [exact P26|exact G2].
     - destruct K46 as ((_ & _ & L & A4) & _ & _ & _ & Kc). intros id Hid. rewrite Kc in Hid.
       destruct (C4 id Hid) as [G1 G2]. rewrite L. rewrite <- (core_eq_is_exact _ _ (A4 id)). auto.
     - intros Ht id Hid. destruct P06 as (_ & _ & L & A4). rewrite <- (core_eq_is_exact _ _ (A4 id)).
@@ -1983,5 +2001,198 @@ Section Exact.
     split; [exact A1|]. split; [exact A2|]. split; [exact A3|].
     intros id. destruct (A4 id) as (c1 & c2 & c3 & c4 & c5 & c6 & c7). repeat split; auto.
   Qed.
-(*PART13*)
+  (* ================================================================== 8. the main theorems *)
+  (* the diagrams the theorems talk about *)
+  Lemma layer_loop_Sinv fuel c ds polls :
+    Sinv (fst (layer_loop st_eqb inp fuel (initialize inp c ds polls))) /\
+    Xs (fst (layer_loop st_eqb inp fuel (initialize inp c ds polls))).
+  Proof.
+    destruct (initialize_inv c ds polls) as (I1 & I2 & I3).
+    apply layer_loop_inv; auto. exists (sp_depth root). exact I3.
+  Qed.
+
+  Lemma compile_Compiled tb tb2 c ds polls m :
+    compile st_eqb inp tb tb2 c ds polls = (m, Compiled) ->
+    exists ml, ml = fst (layer_loop st_eqb inp (S (S (nb_vars pb))) (initialize inp c ds polls)) /\
+               m = finalize st_eqb inp tb tb2 ml /\ Sinv ml /\ Xs ml.
+  Proof.
+    unfold compile. cbv zeta. intros H.
+    destruct (layer_loop_Sinv (S (S (nb_vars pb))) c ds polls) as [HS HX].
+    fold pb in H.
+    destruct (layer_loop st_eqb inp (S (S (nb_vars pb))) (initialize inp c ds polls)) as [ml e].
+    cbn [fst] in HS, HX.
+    destruct e; inversion H. exists ml. auto.
+  Qed.
+
+  Lemma compile_Sinv tb tb2 c ds polls m :
+    compile st_eqb inp tb tb2 c ds polls = (m, Compiled) -> Sinv m.
+  Proof.
+    intros H. destruct (compile_Compiled _ _ _ _ _ _ H) as (ml & _ & -> & HS & HX).
+    apply (finalize_spec tb tb2 ml HS HX).
+  Qed.
+
+  (* ---------------------------------------------------------------- T1 *)
+  Theorem exact_flag_implies_clean_chain tb tb2 c ds polls m id :
+    compile st_eqb inp tb tb2 c ds polls = (m, Compiled) ->
+    fl_is_exact (n_flags (gn m id)) = true -> id < length (m_nodes m) -> clean_chain m id.
+  Proof.
+    intros H Hex Hid. apply Sinv_exact_flag_clean_chain; auto. eapply compile_Sinv; eauto.
+  Qed.
+
+  Theorem exact_flag_implies_clean_chain_loop fuel c ds polls id :
+    let m := fst (layer_loop st_eqb inp fuel (initialize inp c ds polls)) in
+    fl_is_exact (n_flags (gn m id)) = true -> id < length (m_nodes m) -> clean_chain m id.
+  Proof.
+    intros m Hex Hid. apply Sinv_exact_flag_clean_chain; auto. apply layer_loop_Sinv.
+  Qed.
+
+  (* ---------------------------------------------------------------- T2 *)
+  Theorem has_exact_best_path_implies_clean_chain tb tb2 c ds polls m id :
+    compile st_eqb inp tb tb2 c ds polls = (m, Compiled) ->
+    has_exact_best_path inp (S (length (m_nodes m))) m (Some id) = true ->
+    id < length (m_nodes m) -> clean_chain m id.
+  Proof.
+    intros H Hebp Hid. eapply Sinv_ebp_clean_chain; [eapply compile_Sinv; eauto| |exact Hid|exact Hebp]. lia.
+  Qed.
+
+  Theorem has_exact_best_path_implies_clean_chain_loop fuel c ds polls id :
+    let m := fst (layer_loop st_eqb inp fuel (initialize inp c ds polls)) in
+    has_exact_best_path inp (S (length (m_nodes m))) m (Some id) = true ->
+    id < length (m_nodes m) -> clean_chain m id.
+  Proof.
+    intros m Hebp Hid. eapply Sinv_ebp_clean_chain; [apply layer_loop_Sinv| |exact Hid|exact Hebp]. lia.
+  Qed.
+
+  (* ---------------------------------------------------------------- T3 *)
+  Lemma Sinv_clean_chain_replays (m : mdd) id :
+    Sinv m -> clean_chain m id -> id < length (m_nodes m) ->
+    replay_sat pb (rev (chain m id)) (sp_state root) (sp_value root)
+      = Some (n_state (gn m id), n_vtop (gn m id)) /\
+    length (chain m id) = n_depth (gn m id) - sp_depth root /\
+    sp_depth root <= n_depth (gn m id) /\
+    m_path m = sp_path root.
+  Proof.
+    intros HS Hcc Hid. unfold chain.
+    destruct (Sinv_clean_chain_walk m HS id Hcc (S (length (m_nodes m)))) as [H1 H2]; [lia|exact Hid|].
+    split; [exact H1|]. split; [lia|]. split; [lia|]. apply (S_root _ HS).
+  Qed.
+
+  Theorem clean_chain_replays tb tb2 c ds polls m id :
+    compile st_eqb inp tb tb2 c ds polls = (m, Compiled) ->
+    clean_chain m id -> id < length (m_nodes m) ->
+    replay_sat pb (rev (chain m id)) (sp_state root) (sp_value root)
+      = Some (n_state (gn m id), n_vtop (gn m id)) /\
+    length (chain m id) = n_depth (gn m id) - sp_depth root /\
+    sp_depth root <= n_depth (gn m id) /\
+    m_path m = sp_path root.
+  Proof. intros H. apply Sinv_clean_chain_replays. eapply compile_Sinv; eauto. Qed.
+
+  Theorem clean_chain_replays_loop fuel c ds polls id :
+    let m := fst (layer_loop st_eqb inp fuel (initialize inp c ds polls)) in
+    clean_chain m id -> id < length (m_nodes m) ->
+    replay_sat pb (rev (chain m id)) (sp_state root) (sp_value root)
+      = Some (n_state (gn m id), n_vtop (gn m id)) /\
+    length (chain m id) = n_depth (gn m id) - sp_depth root /\
+    sp_depth root <= n_depth (gn m id) /\
+    m_path m = sp_path root.
+  Proof. intros m. apply Sinv_clean_chain_replays. apply layer_loop_Sinv. Qed.
+
+  (* ---------------------------------------------------------------- C1 *)
+  Theorem restricted_solution_feasible tb tb2 c ds polls m b :
+    ci_type inp = Restricted \/ ci_type inp = Exact ->
+    compile st_eqb inp tb tb2 c ds polls = (m, Compiled) ->
+    m_best m = Some b \/ m_best_exact m = Some b ->
+    b < length (m_nodes m) /\ clean_chain m b /\
+    replay_sat pb (rev (chain m b)) (sp_state root) (sp_value root)
+      = Some (n_state (gn m b), n_vtop (gn m b)) /\
+    best_path inp m b = sp_path root ++ chain m b /\
+    length (chain m b) = n_depth (gn m b) - sp_depth root.
+  Proof.
+    intros Ht H Hb.
+    destruct (compile_Compiled _ _ _ _ _ _ H) as (ml & _ & -> & HS & HX).
+    destruct (finalize_spec tb tb2 ml HS HX) as (F1 & F2 & F3 & F4 & F5 & F6 & F7).
+    set (m := finalize st_eqb inp tb tb2 ml) in *.
+    assert (Hlt : b < length (m_nodes m)).
+    { destruct Hb as [Hb|Hb]; [apply F4; exact Hb|apply F5; exact Hb]. }
+    assert (Hnr : ci_type inp <> Relaxed) by (destruct Ht as [E|E]; rewrite E; discriminate).
+    assert (Hcc : clean_chain m b).
+    { apply Sinv_exact_flag_clean_chain; auto. }
+    destruct (Sinv_clean_chain_replays m b F3 Hcc Hlt) as (R1 & R2 & R3 & R4).
+    split; [exact Hlt|]. split; [exact Hcc|]. split; [exact R1|]. split; [|exact R2].
+    rewrite best_path_chain, R4. reflexivity.
+  Qed.
+
+  (* the same in terms of the DecisionDiagram API *)
+  Corollary restricted_best_solution_replays tb tb2 c ds polls m sol v :
+    ci_type inp = Restricted \/ ci_type inp = Exact ->
+    compile st_eqb inp tb tb2 c ds polls = (m, Compiled) ->
+    dd_best_solution inp m = Some sol -> dd_best_value inp m = Some v ->
+    exists ch s, sol = sp_path root ++ ch /\ replay_sat pb (rev ch) (sp_state root) (sp_value root) = Some (s, v).
+  Proof.
+    intros Ht H Hsol Hv. unfold dd_best_solution in Hsol. unfold dd_best_value in Hv.
+    destruct (m_best m) as [b|] eqn:Eb; [|discriminate]. simpl in Hsol, Hv.
+    destruct (restricted_solution_feasible tb tb2 c ds polls m b Ht H (or_introl Eb)) as (G1 & G2 & G3 & G4 & G5).
+    inversion Hsol; inversion Hv; subst. exists (chain m b), (n_state (gn m b)). auto.
+  Qed.
+
+  (* ---------------------------------------------------------------- C3 *)
+  (* stronger than asked: no hypothesis on the compilation type nor on dd_is_exact is needed *)
+  Theorem best_exact_solution_genuine tb tb2 c ds polls m b :
+    compile st_eqb inp tb tb2 c ds polls = (m, Compiled) ->
+    m_best_exact m = Some b ->
+    b < length (m_nodes m) /\ clean_chain m b /\
+    replay_sat pb (rev (chain m b)) (sp_state root) (sp_value root)
+      = Some (n_state (gn m b), n_vtop (gn m b)) /\
+    best_path inp m b = sp_path root ++ chain m b /\
+    length (chain m b) = n_depth (gn m b) - sp_depth root.
+  Proof.
+    intros H Hb.
+    destruct (compile_Compiled _ _ _ _ _ _ H) as (ml & _ & -> & HS & HX).
+    destruct (finalize_spec tb tb2 ml HS HX) as (F1 & F2 & F3 & F4 & F5 & F6 & F7).
+    set (m := finalize st_eqb inp tb tb2 ml) in *.
+    destruct (F5 b Hb) as [Hlt Hcc].
+    destruct (Sinv_clean_chain_replays m b F3 Hcc Hlt) as (R1 & R2 & R3 & R4).
+    split; [exact Hlt|]. split; [exact Hcc|]. split; [exact R1|]. split; [|exact R2].
+    rewrite best_path_chain, R4. reflexivity.
+  Qed.
+
+  Theorem relaxed_exact_solution_genuine tb tb2 c ds polls m b :
+    ci_type inp = Relaxed ->
+    compile st_eqb inp tb tb2 c ds polls = (m, Compiled) ->
+    dd_is_exact m = true -> m_best_exact m = Some b ->
+    clean_chain m b /\
+    replay_sat pb (rev (chain m b)) (sp_state root) (sp_value root)
+      = Some (n_state (gn m b), n_vtop (gn m b)).
+  Proof.
+    intros _ H _ Hb. destruct (best_exact_solution_genuine _ _ _ _ _ _ _ H Hb) as (G1 & G2 & G3 & _). auto.
+  Qed.
+
+  (* ---------------------------------------------------------------- C2 *)
+  Theorem cutset_nodes_exact tb tb2 c ds polls m sp :
+    compile st_eqb inp tb tb2 c ds polls = (m, Compiled) ->
+    In sp (drain_cutset inp m) ->
+    exists id, In id (m_cutset m) /\ id < length (m_nodes m) /\
+      fl_is_exact (n_flags (gn m id)) = true /\ clean_chain m id /\
+      sp_path sp = sp_path root ++ chain m id /\
+      sp_state sp = n_state (gn m id) /\ sp_value sp = n_vtop (gn m id) /\
+      sp_depth sp = n_depth (gn m id) /\
+      replay_sat pb (rev (chain m id)) (sp_state root) (sp_value root) = Some (sp_state sp, sp_value sp) /\
+      sp_depth sp = sp_depth root + length (chain m id).
+  Proof.
+    intros H Hin.
+    destruct (compile_Compiled _ _ _ _ _ _ H) as (ml & _ & -> & HS & HX).
+    destruct (finalize_spec tb tb2 ml HS HX) as (F1 & F2 & F3 & F4 & F5 & F6 & F7).
+    set (m := finalize st_eqb inp tb tb2 ml) in *.
+    unfold drain_cutset in Hin. destruct (dd_best_value inp m) as [bv|]; [|destruct Hin].
+    apply in_flat_map in Hin. destruct Hin as (id & Hid & Hsp).
+    destruct (f_marked (n_flags (gn m id))); [|destruct Hsp].
+    destruct Hsp as [<-|[]].
+    destruct (F6 id Hid) as [Hlt Hex].
+    assert (Hcc : clean_chain m id) by (apply Sinv_exact_flag_clean_chain; auto).
+    destruct (Sinv_clean_chain_replays m id F3 Hcc Hlt) as (R1 & R2 & R3 & R4).
+    exists id. cbn [sp_path sp_state sp_value sp_depth].
+    split; [exact Hid|]. split; [exact Hlt|]. split; [exact Hex|]. split; [exact Hcc|].
+    split; [rewrite best_path_chain, R4; reflexivity|].
+    split; [reflexivity|]. split; [reflexivity|]. split; [reflexivity|]. split; [exact R1|]. lia.
+  Qed.
 End Exact.
